@@ -41,7 +41,7 @@ static _Bool wf_counts(const vnacal_new_t *vnp)
     {
 	const vnacal_new_measurement_t *m = vnp->vn_measurement_list;
 
-	for (int k = 0; k < 4; ++k)
+	for (int k = 0; k < 8; ++k)
 	    if (m != NULL) {
 		++standards;
 		m = m->vnm_next;
@@ -156,6 +156,83 @@ void h_solve_too_few(void)
     /* --memory-leak-check */
 }
 
+
+/*
+ * Unevenly supplied column systems (E12 / UE14): each measurement column is
+ * its own linear system.  Column 2 has all it needs (three reflects on port
+ * 2 and the through), column 1 has only the through and one reflect: fewer
+ * equations than unknown error terms.  vnacal_new_solve must fail with EDOM
+ * whatever the numeric kernels say about the systems they are handed --
+ * the linear kernels are the ASSUMED CONTRACTS below (any rank up to
+ * min(rows, columns), any determinant), so the verdict is for all data.
+ */
+#ifdef KERNEL_CONTRACTS
+int _vnacommon_qrsolve(complex double *x, complex double *a,
+	complex double *b, int m, int n, int o)
+{
+    int rank = nondet_int();
+
+    (void)a; (void)b;
+    __CPROVER_assume(rank >= 0 && rank <= (m < n ? m : n));
+    for (int i = 0; i < n * o; ++i)
+	x[i] = nondet_double();
+    return rank;
+}
+
+double complex _vnacommon_mldivide(complex double *x, complex double *a,
+	const double complex *b, int m, int n)
+{
+    (void)a; (void)b;
+    for (int i = 0; i < m * n; ++i)
+	x[i] = nondet_double();
+    return nondet_double();
+}
+#endif
+
+void h_solve_uneven(void)
+{
+    IN_ARR(double, mv, 8);
+    double f[1] = { 1.0e9 };
+    double complex c[8];
+    double complex *r1[1] = { &c[0] }, *r2[1] = { &c[1] }, *r3[1] = { &c[2] }, *r4[1] = { &c[3] };
+    double complex *t[4] = { &c[4], &c[5], &c[6], &c[7] };
+    vnacal_t *vcp;
+    vnacal_new_t *vnp;
+    int unknowns, eq0, rc;
+
+    for (int i = 0; i < 8; ++i)
+	c[i] = mv[i];
+    ghost_err_reset();
+    vcp = vnacal_create(verif_error_fn, NULL);
+    ASSUME(vcp != NULL);
+    vnp = vnacal_new_alloc(vcp, CAL_TYPE, 2, 2, 1);
+    ASSUME(vnp != NULL);
+    ASSUME(vnacal_new_set_frequency_vector(vnp, f) == 0);
+    ASSUME(vnacal_new_add_single_reflect_m(vnp, r1, 1, 1, VNACAL_SHORT, 2) == 0);
+    ASSUME(vnacal_new_add_single_reflect_m(vnp, r2, 1, 1, VNACAL_OPEN, 2) == 0);
+    ASSUME(vnacal_new_add_single_reflect_m(vnp, r3, 1, 1, VNACAL_MATCH, 2) == 0);
+    ASSUME(vnacal_new_add_through_m(vnp, t, 2, 2, 1, 2) == 0);
+    ASSUME(vnacal_new_add_single_reflect_m(vnp, r4, 1, 1, VNACAL_SHORT, 1) == 0);
+    unknowns = vnp->vn_layout.vl_t_terms - 1;
+    CHECK(wf_counts(vnp) && vnp->vn_systems == 2, "two column systems, counts match the lists");
+    /* the scenario is what the comment says (reach-probed, not assumed away) */
+    ASSUME(vnp->vn_system_vector[0].vns_equation_count < unknowns &&
+	   vnp->vn_system_vector[1].vns_equation_count >= unknowns);
+    REACH("column 1 is short of equations while column 2 has enough");
+    eq0 = vnp->vn_equations;
+    CHECK(ghost_err_calls == 0, "set-up is silent");
+
+    rc = vnacal_new_solve(vnp);
+    REACH("solve returned");
+    CHECK(rc == -1, "a column system with fewer equations than unknown error terms: solve fails");
+    CHECK(ghost_err_calls == 1 && ghost_err_category == VNAERR_MATH && errno == EDOM,
+	    "the failure is reported once as a math error (EDOM)");
+    CHECK(vnp->vn_calibration == NULL, "no calibration is invented");
+    CHECK(wf_counts(vnp) && vnp->vn_equations == eq0 && vnp->vn_measurement_count == 5,
+	    "the accumulated standards are untouched");
+    vnacal_new_free(vnp);
+    vnacal_free(vcp);
+}
 
 /*
  * C03: a standard with an UNKNOWN reflect parameter on one port of a 2x2
